@@ -268,15 +268,24 @@ def ref_registry_step(reg: dict, f, proto: str, out: str):
             proto == "2.2" and name == "I_PRE_SLEEP_NOTIFICATION")
         if needs_node and n not in reg:
             return reg, f"err missingNode {n}"
-        if out.startswith("ok"):
-            if name == "I_BATTERY_LEVEL":
-                reg[n]["bat"] = round(float(p))
-            elif name == "I_SKETCH_NAME":
-                reg[n]["sn"] = p
-            elif name == "I_SKETCH_VERSION":
-                reg[n]["sv"] = p
-            elif name == "I_HEARTBEAT_RESPONSE" and proto in V20:
+        # a report is recorded when its payload is valid; a write failing later in the step (version query,
+        # released command) is reported as a transport error but does not undo the record
+        if name == "I_BATTERY_LEVEL":
+            try:
+                level = round(float(p))
+            except (ValueError, OverflowError):
+                level = None
+            if level is not None and 0 <= level <= 100:
+                reg[n]["bat"] = level
+        elif name == "I_SKETCH_NAME":
+            reg[n]["sn"] = p
+        elif name == "I_SKETCH_VERSION":
+            reg[n]["sv"] = p
+        elif name == "I_HEARTBEAT_RESPONSE" and proto in V20:
+            try:
                 reg[n]["hb"] = int(p)
+            except ValueError:
+                pass
         return reg, None
     if cmd == 4 and n not in reg:
         return reg, f"err missingNode {n}"
